@@ -825,4 +825,20 @@ example : urlHostportT (urlPrimOf noHostPrim) (L "http://[1.2.3.4]/x") = none :=
 
 end host
 
+/-! ### audit round 6 (cross-audit by b-c36): witnesses that the guarded round-trip theorems are not vacuous on a list of
+    two DIFFERENT flows, and that their conclusion really is the field-by-field agreement (computed, not just implied) -/
+/-- a GET without body next to `okFlow`'s POST -/
+def okGet : Flow :=
+  { method := L "GET", purl := L "http://example.com/b"
+    req := ⟨v3, [hdr "Host" "example.com", hdr "Accept" "*/*"], []⟩
+    status := 404
+    resp := ⟨v11, [hdr "Server" "x", hdr "Content-Length" "2"], L "no"⟩ }
+example : guardAll toyLib okGet = true ∧ okGet ≠ okFlow := by decide +kernel
+example : (∀ f ∈ [okFlow, okGet], guardAll toyLib f = true) := by decide +kernel
+example : (match roundtrip toyLib toyJson [okFlow, okGet] with
+    | some [a, b] => same toyLib okFlow a && same toyLib okGet b && !(same toyLib okFlow b)
+    | _ => false) = true := by decide +kernel
+-- the same two flows over the library with the transcribed helpers
+example : (∀ f ∈ [okFlow, okGet], guardAll (mkLib toyPrim) f = true) := by decide +kernel
+
 end MitmVerif.Props.C41
